@@ -166,9 +166,11 @@ def explore(pid, tier, jobs, only_group=None, verbose=False):
                    witnesses=[], stub_calls={}, unexplored=0, functions=[], twin=None, samples=[],
                    queries=0, solver_s=0.0, cut=0, abort_reasons={}) for g in groups}
     outstanding = 0
+    out_by_group = {g: 0 for g in groups}
     for g in groups:
         task_q.put((g, []))
         outstanding += 1
+        out_by_group[g] += 1
     fatal = None
     t0 = time.time()
     deadline = t0 + (H.BUDGET_S[tier] if hasattr(H, 'BUDGET_S') else (600 if tier == 'quick' else 3600))
@@ -185,6 +187,7 @@ def explore(pid, tier, jobs, only_group=None, verbose=False):
                 if t is not None:
                     agg[t[0]]['cut'] += 1
                     outstanding -= 1
+                    out_by_group[t[0]] -= 1
             if not outstanding:
                 break
         try:
@@ -193,14 +196,19 @@ def explore(pid, tier, jobs, only_group=None, verbose=False):
             if not any(p.is_alive() for p in procs):
                 fatal = 'all workers died'
                 break
-            if time.time() > deadline + 300:
-                fatal = 'deadline exceeded with stuck workers'
+            if time.time() > deadline + 240:
+                # sub-trees still being explored long after the budget are abandoned and counted as cut
+                # (reported as INCONCLUSIVE / exhaustive: false, never as a pass)
+                for g_, k_ in out_by_group.items():
+                    agg[g_]['cut'] += k_
+                    agg[g_]['abandoned'] = agg[g_].get('abandoned', 0) + k_
                 break
             continue
         if 'fatal' in out:
             fatal = out['fatal']
             break
         outstanding -= 1
+        out_by_group[out['group']] -= 1
         a = agg[out['group']]
         for k in ('paths', 'done', 'aborted', 'exceptions', 'decisions', 'unexplored', 'queries', 'solver_s'):
             a[k] += out[k]
@@ -230,6 +238,7 @@ def explore(pid, tier, jobs, only_group=None, verbose=False):
             for p in out['pending']:
                 task_q.put((out['group'], p))
                 outstanding += 1
+                out_by_group[out['group']] += 1
         if verbose:
             print(f"  [{time.time()-t0:6.1f}s] {out['group']}: paths={a['paths']} outstanding={outstanding}",
                   file=sys.stderr)
@@ -239,6 +248,9 @@ def explore(pid, tier, jobs, only_group=None, verbose=False):
         p.join(timeout=2)
         if p.is_alive():
             p.terminate()
+    # terminated workers leave unread data in the pipes: do not wait for the feeder threads at interpreter exit
+    task_q.cancel_join_thread()
+    res_q.cancel_join_thread()
     return H, groups, agg, fatal
 
 
